@@ -1,7 +1,7 @@
 #!/bin/bash
 # usage: try_mutant.sh <patch.diff> <PROP> [PROP...]  — run checks against a scratch worktree with the patch applied
 # (development aid; the official procedure applies the patch to /repo itself). Env: TIER (quick), SLOT (1)
-patch=$1; shift
+patch=$(readlink -f "$1"); shift
 slot=${SLOT:-1}
 wt=/tmp/wt/try-$slot
 git -C /repo worktree remove --force $wt 2>/dev/null
